@@ -15,6 +15,9 @@ CHECKS = {
  "C06": dict(cat="model_checking", tech="TLA+ Session specification (no entry-point family in the key) + TLC trace validation (SessionTrace.tla) of recorded conversions through 9 API families and 4 CLI modes; packaged outputs projected member-wise",
              text="Every case (document x format x extension set) is executed through the C-string, DString and engine variants of convert / convert_to_data / convert_to_file in the ASan harness and through the sanitized command line tool (stdin, file argument, -o, -b). SessionTrace accepts the trace only if every family returns/writes a result and all families that the property relates produce the same digest as the first one; metadata has/keys/value triplets are validated the same way.",
              note="Design-level part is the model-checked Session spec; the code-level part is bounded by the document pool (hand-picked + corpus sample) x 10 formats x 3-6 extension sets. Packages compared member-wise with uuids/timestamps masked (python zipfile).", ref="5/C06"),
+ "C02": dict(cat="model_checking", tech="TLA+ model of the lemon driver (LemonParser.tla) over action tables extracted from the parser source at check time, explored exhaustively by TLC; lemon's own ParseTrace output of real conversions validated step by step against the model (LemonParserTrace.tla); writers' case labels extracted into WriterCases.tla and checked for mutual consistency; end-to-end escapes monitored by CompleteTrace.tla",
+             text="Parser half: complete - TLC explores every reachable parser stack (about 7k with symbols) x every realizable line kind over the code's own tables: no syntax error, failure or stack overflow, end of input accepted, for documents of any length. The model is bound to the code by validating every recorded Parse() call (nested parser instances too) of generated line sequences and the corpus against it. Writer half: bounded - every sequence of <=2 (sampled/all 3) line spellings, simulated 12-line documents and the corpus x 7 writers x 2 modes must return a rendering without exit(), 'unknown token', 'parser failed' or 'syntax error'; plus a static consistency check of the writers' dispatch tables.",
+             note="Alphabet assumption (three pseudo line kinds never produced) is re-checked on every trace. Inline token kinds are covered by corpus + spellings only.", ref="5/C02"),
 }
 NOT_APPLICABLE = {}
 def main():
